@@ -104,7 +104,10 @@ def run_config(ir, cfg):
         sig = dict(ctx)
         sig.update(field="emit", expected="text", observed="raises " + type(e).__name__)
         return [dict(sig=_classes(sig, ir), expected="a docstring", observed=repr(e)[:200])], "emit-raises"
-    missing = [n for n in ir["params"] if n not in text]
+    import re as _re
+
+    declares = {"rest": r":param %s:", "google": r"^\s+%s( \(|:)", "numpydoc": r"^%s :"}[cfg["style"]]
+    missing = [n for n in ir["params"] if not _re.search(declares % _re.escape(n), text, _re.M)]
     if missing:
         # nothing can be recovered from a text that does not even name the parameters: one violation, no field comparison
         sig = dict(ctx)
@@ -136,6 +139,8 @@ def _classes(sig, ir):
     sig["default_kinds"] = ",".join(sorted({A.vkind(p.get("default", O.ABSENT)) for p in ps}))
     sig["n_params"] = len(ps)
     # (a parameter with a dotted type and a code-quoted default is what makes the ReST parser raise when the type line is omitted)
+    sig["dot_in_default"] = any(isinstance(p.get("default"), str) and "." in p["default"] and not p["default"].startswith("```") for p in ps)
+    sig["quote_in_default"] = any(isinstance(p.get("default"), str) and '"' in p["default"] for p in ps)
     sig["dotted_code_default"] = any(A.tclass(p.get("typ")) == "dotted" and A.vkind(p.get("default", O.ABSENT)) == "code" for p in ps)
     return sig
 
@@ -158,6 +163,7 @@ def run(case):
         outcomes.add(outcome)
         for v in vs:
             v["sig"]["kwargs_name"] = any(nm.endswith("kwargs") for nm in ir["params"])
+            _classes(v["sig"], ir) if "dot_in_default" not in v["sig"] else None
             v["sig"]["word_wrap_only"] = None
             v["case"] = dict(key=case.get("key"), ir=case["ir"], cfg=cfg)
         viol.extend(vs)
